@@ -1,6 +1,8 @@
 import ShroudVerif.Lemmas.DeclNoCrash
 import ShroudVerif.Lemmas.DeclRound
+import ShroudVerif.Lemmas.AttrsNoCrash
 import ShroudVerif.Gen.DeclTables
+import ShroudVerif.Gen.AttrTables
 /-!
 # C17  Invalid input is rejected with a diagnostic, never by an internal failure
 
@@ -21,7 +23,10 @@ namespace), for ALL token lists and all symbol/typemap environments.
     not stated as a theorem; equality of `tokens (gen_decl d)` with the input up to
     normalisation is proved only in the printer-to-parser direction (C09 round trip).
 (4) `documented_forms_accepted`.
-VerifyAttrs and the YAML shape checks are not modelled (implementation oracle only).
+(5) attribute validation (`Model/Attrs.lean`, a model of generate.VerifyAttrs tied to the real
+    code through the driver op `vattrs`): `verifyAttrs_no_crash`, the documented illegal
+    combinations (`illegal_*`), the default rules (`default_*`).
+The YAML shape checks of ast.py are not modelled (implementation oracle only).
 -/
 namespace Shroud.Decl
 
@@ -169,3 +174,239 @@ open Shroud.Gen.DeclTables in
 example : parse defaultEnv [tk .TYPE_SPECIFIER "int", tk .ID "x", tk .RPAREN ")"] = .reject "Expected EOF, found RPAREN" := by rfl
 
 end Shroud.Decl
+
+/-! ## (5) attribute validation -/
+namespace Shroud.Attrs
+open Shroud.Decl
+
+/-- **no internal failure in attribute validation**: for every table of allowed names, every
+    `patterns` list, every declaration shape and every attribute map (absent / bare / text /
+    integer / real / list / false values), `check_fcn_attrs`, `check_arg_attrs` and
+    `check_var_attrs` end in `ok` or a diagnostic. -/
+theorem verifyAttrs_no_crash (t : Tables) (patterns : List Str) (d : ADecl) (hasNode : Bool) (e : String) :
+    checkFcn t patterns d ≠ .crash e ∧ checkArg t patterns hasNode d ≠ .crash e ∧ checkVar t d ≠ .crash e :=
+  ⟨NCa_ne (NCa_checkFcn t patterns d) e, NCa_ne (NCa_checkArg t patterns d hasNode) e, NCa_ne (NCa_checkVar t d) e⟩
+
+/-- the recursion budget of the expression parser suffices for every token list
+    (used for `+implied(...)` and `+dimension(...)` text; also C17 (1) for `ExprParser`) -/
+theorem expression_fuel_suffices (mp : Nat) (ts : Toks) (n : Nat) (hn : n ≥ 4 * ts.length + 2) :
+    expression n mp ts ≠ .fuel := expression_not_fuel mp ts n hn
+
+/-! ### documented illegal combinations are rejected, naming the attribute
+(docs/input.rst "Attributes": "Nonpointer arguments can only be intent(in)", dimension / rank
+"of pointer arguments", charlen "char *arg+intent(out)", deref "pointer", value vs dimension) -/
+
+/-- an attribute name outside the allowed list of its position is rejected by name -/
+theorem illegal_name_rejected (t : Tables) (pats : List Str) (hn : Bool) (ptrs : List PtrK) (a c h : Bool)
+    (tn tb sg : Str) (fp : Bool) (nt : Nat) (tt : Bool) (attrs : List (Str × AVal)) (k : Str)
+    (hk : firstIllegal t.argAttrs attrs = some k) :
+    checkArgOne t pats hn ptrs a c h tn tb sg fp nt tt attrs = .reject ("arg:illegal-attribute:" ++ String.ofList k) := by
+  simp [checkArgOne, hk]
+
+/-- "Nonpointer arguments can only be intent(in)" -/
+theorem illegal_intent_on_nonpointer (t : Tables) (hn c f : Bool) (sg : Str) (attrs : List (Str × AVal))
+    (s : Str) (toks : Toks) (i : Option Int) (hi : get "intent" attrs = some (.text s toks i))
+    (hv : lower s ∈ t.intentValues) (hne : lower s ≠ "in".toList) :
+    checkIntent t hn [] c f sg attrs = .reject "intent:only-pointer-arguments" := by
+  have hne' : ¬ lower s = ['i', 'n'] := hne
+  simp [checkIntent, hi, hv, hne']
+
+/-- an intent that is not in / out / inout, or that has no value -/
+theorem illegal_intent_value (t : Tables) (hn c f : Bool) (ptrs : List PtrK) (sg : Str) (attrs : List (Str × AVal))
+    (v : AVal) (hi : get "intent" attrs = some v)
+    (hv : ∀ s toks i, v = .text s toks i → lower s ∉ t.intentValues) :
+    checkIntent t hn ptrs c f sg attrs = .reject "intent:bad-value" ∨
+    checkIntent t hn ptrs c f sg attrs = .reject "intent:must-have-a-value" := by
+  cases v with
+  | text s toks i => left; simp [checkIntent, hi, hv s toks i rfl]
+  | bare => right; simp [checkIntent, hi]
+  | int _ => right; simp [checkIntent, hi]
+  | real _ _ => right; simp [checkIntent, hi]
+  | list _ => right; simp [checkIntent, hi]
+  | boolFalse => right; simp [checkIntent, hi]
+
+def dimensionIds : List String :=
+  ["dimension:must-have-a-value", "dimension:with-value", "dimension:with-rank", "dimension:only-pointer"]
+def rankIds : List String :=
+  ["rank:must-have-integer-value", "rank:not-an-integer", "rank:must-be-0-7", "rank:only-pointer"]
+def derefIds : List String := ["deref:illegal-value", "deref:on-non-pointer"]
+
+/-- `dimension` together with `value`, with `rank`, or on a non-pointer -/
+theorem illegal_dimension_combinations (ptrs : List PtrK) (h : Bool) (tn tb : Str) (r : Option Int)
+    (attrs : List (Str × AVal)) (hd : truthyAt "dimension" attrs = true)
+    (hbad : truthyAt "value" attrs = true ∨ truthyAt "rank" attrs = true ∨ ptrs = []) :
+    ∃ id, checkDimension ptrs h tn tb r attrs = .reject id ∧ id ∈ dimensionIds := by
+  unfold checkDimension
+  simp only [hd, if_true]
+  split
+  · exact ⟨_, rfl, by simp [dimensionIds]⟩
+  · by_cases h1 : truthyAt "value" attrs = true
+    · simp only [h1, if_true]; exact ⟨_, rfl, by simp [dimensionIds]⟩
+    · by_cases h2 : truthyAt "rank" attrs = true
+      · simp only [h1, h2, if_true, if_false, Bool.false_eq_true]; exact ⟨_, rfl, by simp [dimensionIds]⟩
+      · rcases hbad with hb | hb | hb
+        · exact absurd hb h1
+        · exact absurd hb h2
+        · subst hb
+          simp only [h1, h2, if_false, Bool.false_eq_true, List.isEmpty_nil, if_true]
+          exact ⟨_, rfl, by simp [dimensionIds]⟩
+
+/-- `rank` must be an integer 0-7 on a pointer or reference -/
+theorem illegal_rank (ptrs : List PtrK) (attrs : List (Str × AVal)) (v : AVal)
+    (hr : get "rank" attrs = some v) (ht : v.truthy = true)
+    (hbad : rankInt v = none ∨ (∃ n, rankInt v = some n ∧ n > 7) ∨ ptrs = []) :
+    ∃ id, checkRank ptrs attrs = .reject id ∧ id ∈ rankIds := by
+  have htr : truthyAt "rank" attrs = true := by simp [truthyAt, hr, ht]
+  have key : ∀ n, rankInt v = some n →
+      ∃ id, (if n > 7 then (Res.reject "rank:must-be-0-7" : Res (Option Int))
+             else if ptrs.isEmpty then .reject "rank:only-pointer" else .ok (some n)) = .reject id ∧ id ∈ rankIds := by
+    intro n hn
+    by_cases h7 : n > 7
+    · simp only [h7, if_true]; exact ⟨_, rfl, by simp [rankIds]⟩
+    · rcases hbad with hb | ⟨m, hm, hgt⟩ | hb
+      · rw [hn] at hb; cases hb
+      · rw [hn] at hm; cases hm; exact absurd hgt h7
+      · subst hb; simp only [h7, if_false, List.isEmpty_nil, if_true]; exact ⟨_, rfl, by simp [rankIds]⟩
+  unfold checkRank
+  simp only [htr, if_true, hr]
+  cases v with
+  | bare => exact ⟨_, rfl, by simp [rankIds]⟩
+  | boolFalse => simp [AVal.truthy] at ht
+  | list ne => exact ⟨_, rfl, by simp [rankIds]⟩
+  | text s toks i =>
+    cases i with
+    | none => exact ⟨_, rfl, by simp [rankIds]⟩
+    | some n => exact key n rfl
+  | int n => exact key n rfl
+  | real tr nz => exact key tr rfl
+
+/-- `deref` with a value outside the allowed list, or on a non-pointer -/
+theorem illegal_deref (t : Tables) (ptrs : List PtrK) (a : Bool) (tn : Str) (i : Option Str)
+    (attrs : List (Str × AVal)) (v : AVal) (hd : get "deref" attrs = some v)
+    (hbad : v.isOneOf t.derefValues = false ∨ ptrs = []) :
+    ∃ id, checkDeref t ptrs a tn i attrs = .reject id ∧ id ∈ derefIds := by
+  unfold checkDeref
+  simp only [hd]
+  by_cases h1 : v.isOneOf t.derefValues = true
+  · rcases hbad with hb | hb
+    · rw [hb] at h1; cases h1
+    · subst hb; exact ⟨"deref:on-non-pointer", by simp [h1], by simp [derefIds]⟩
+  · exact ⟨"deref:illegal-value", by simp [h1], by simp [derefIds]⟩
+
+/-- `assumedtype` together with `value` -/
+theorem illegal_assumedtype_with_value (ptrs : List PtrK) (a : Bool) (tn : Str) (attrs : List (Str × AVal)) (v : AVal)
+    (ha : get "assumedtype" attrs = some v) (hv : truthyAt "value" attrs = true) :
+    checkValue ptrs a tn attrs = .reject "assumedtype:with-value" := by
+  simp [checkValue, ha, hv]
+
+/-- `charlen` on anything but `char *` -/
+theorem illegal_charlen (ptrs : List PtrK) (tb : Str) (attrs : List (Str × AVal))
+    (hc : truthyAt "charlen" attrs = true) (hbad : tb ≠ "string".toList ∨ ptrs.length ≠ 1) :
+    checkCharlen ptrs tb attrs = .reject "charlen:only-char-pointer" := by
+  unfold checkCharlen
+  simp only [hc, if_true]
+  split
+  · rfl
+  · rename_i h1
+    split
+    · rfl
+    · rename_i h2
+      rcases hbad with hb | hb
+      · exact absurd hb h1
+      · exact absurd hb h2
+
+/-- `owner` outside caller / library -/
+theorem illegal_owner (t : Tables) (pats : List Str) (attrs : List (Str × AVal)) (v : AVal)
+    (ho : get "owner" attrs = some v) (hbad : v.isOneOf t.ownerValues = false) :
+    checkOwner t pats attrs = .reject "owner:illegal-value" := by
+  simp [checkOwner, ho, hbad]
+
+/-! ### documented defaults (docs/declarations.rst: numeric values default to intent(in) and are
+passed by value; `const` pointers default to intent(in); other pointers to intent(inout);
+docs/pointers.rst: `int **arg +intent(out)` defaults to deref(pointer)) -/
+
+/-- default intent of an argument without `+intent` -/
+theorem default_intent (t : Tables) (ptrs : List PtrK) (c f : Bool) (sg : Str) (attrs : List (Str × AVal))
+    (hi : get "intent" attrs = none) :
+    checkIntent t true ptrs c f sg attrs = .ok (some (
+      if f ∨ ptrs = [] ∨ c ∨ sg = "void".toList then "in".toList else "inout".toList)) := by
+  unfold checkIntent
+  simp only [hi]
+  cases f <;> cases c <;> cases ptrs <;> simp <;> split <;> simp_all
+
+/-- parameters of a function-pointer argument get no default intent -/
+theorem default_intent_fptr_param (t : Tables) (ptrs : List PtrK) (c f : Bool) (sg : Str) (attrs : List (Str × AVal))
+    (hi : get "intent" attrs = none) : checkIntent t false ptrs c f sg attrs = .ok none := by
+  simp [checkIntent, hi]
+
+/-- default pass-by-value: non-pointer non-array arguments and `void *` -/
+theorem default_value (ptrs : List PtrK) (a : Bool) (tn : Str) (attrs : List (Str × AVal))
+    (h1 : get "assumedtype" attrs = none) (h2 : get "value" attrs = none) :
+    checkValue ptrs a tn attrs = .ok (
+      if ptrs = [] then !a else decide (tn = "void".toList ∧ ptrs.length = 1)) := by
+  unfold checkValue
+  simp only [h1, h2]
+  cases ptrs <;> cases a <;> simp
+
+/-- default deref: `**` and `*&` intent(out) arguments of a non-void type become Fortran pointers -/
+theorem default_deref (t : Tables) (ptrs : List PtrK) (a : Bool) (tn : Str) (i : Option Str) (attrs : List (Str × AVal))
+    (hd : get "deref" attrs = none) :
+    checkDeref t ptrs a tn i attrs = .ok (
+      if tn ≠ "void".toList ∧ t.derefOutShapes.contains (indirectStmt ptrs a) = true ∧ i = some "out".toList
+      then some "pointer".toList else none) := by
+  unfold checkDeref
+  simp only [hd]
+  split
+  · rename_i h1; simp [h1]
+  · rename_i h1
+    split
+    · rename_i h2
+      have : (tn ≠ "void".toList ∧ t.derefOutShapes.contains (indirectStmt ptrs a) = true ∧ i = some "out".toList) :=
+        ⟨h1, h2.1, h2.2⟩
+      rw [if_pos this]
+    · rename_i h2
+      have : ¬ (tn ≠ "void".toList ∧ t.derefOutShapes.contains (indirectStmt ptrs a) = true ∧ i = some "out".toList) :=
+        fun h => h2 ⟨h.2.1, h.2.2⟩
+      simp only [this, if_false]
+
+/-- default rank: `std::vector` and `char **` are rank 1 when no dimension is given -/
+theorem default_rank (ptrs : List PtrK) (tn tb : Str) (r : Option Int) (attrs : List (Str × AVal))
+    (hd : truthyAt "dimension" attrs = false) (hv : tb = "vector".toList ∨ (tn = "char".toList ∧ ptrs.length = 2)) :
+    checkDimension ptrs true tn tb r attrs = .ok (some 1) := by
+  unfold checkDimension
+  simp only [hd, Bool.false_eq_true, if_false, if_true]
+  by_cases h1 : tb = "vector".toList
+  · simp [h1]
+  · rcases hv with hv | hv
+    · exact absurd hv h1
+    · simp [h1, hv]
+
+/-! ### instances over the tables extracted from generate.py -/
+
+def codeTables : Tables :=
+  { fcnAttrs := Shroud.Gen.AttrTables.fcnAttrs, argAttrs := Shroud.Gen.AttrTables.argAttrs,
+    varAttrs := Shroud.Gen.AttrTables.varAttrs, intentValues := Shroud.Gen.AttrTables.intentValues,
+    derefValues := Shroud.Gen.AttrTables.derefValues, ownerValues := Shroud.Gen.AttrTables.ownerValues,
+    derefOutShapes := Shroud.Gen.AttrTables.derefOutShapes }
+
+/-- `void f(int x +intent(out))` -/
+example : checkFcn codeTables [] (.mk [] false false true (sp "void") (sp "void") (sp "void") false false 0 false (some (sp "f")) []
+    (some [.mk [] false false true (sp "int") (sp "") (sp "native") false false 0 false (some (sp "x"))
+      [(sp "intent", .text (sp "out") [tk .ID "out"] none)] none]))
+    = .reject "intent:only-pointer-arguments" := by rfl
+
+/-- `void f(int **a +intent(out))`: intent out, not by value, deref pointer -/
+example : checkFcn codeTables [] (.mk [] false false true (sp "void") (sp "void") (sp "void") false false 0 false (some (sp "f")) []
+    (some [.mk [.star, .star] false false true (sp "int") (sp "") (sp "native") false false 0 false (some (sp "a"))
+      [(sp "intent", .text (sp "out") [tk .ID "out"] none)] none]))
+    = .ok [⟨none, false, none, none⟩, ⟨some (sp "out"), false, some (sp "pointer"), none⟩] := by rfl
+
+/-- `void f(double *a +rank(1), int n +implied(size(b)))`: unknown argument in implied -/
+example : checkFcn codeTables [] (.mk [] false false true (sp "void") (sp "void") (sp "void") false false 0 false (some (sp "f")) []
+    (some [.mk [.star] false false true (sp "double") (sp "") (sp "native") false false 0 false (some (sp "a"))
+        [(sp "rank", .text (sp "1") [tk .INTEGER "1"] (some 1))] none,
+      .mk [] false false true (sp "int") (sp "") (sp "native") false false 0 false (some (sp "n"))
+        [(sp "implied", .text (sp "size(b)") [tk .ID "size", tk .LPAREN "(", tk .ID "b", tk .RPAREN ")"] none)] none]))
+    = .reject "implied:unknown-argument" := by rfl
+
+end Shroud.Attrs
